@@ -103,7 +103,7 @@ Step ==
                         /\ viol' = viol
                              \cup (IF InFlight # 0 THEN {IF Cfg.fault THEN "C15" ELSE "C07"} ELSE {})
                              \cup (IF ~Cfg.fault /\ (~AllClosed \/ ~AllDelivered) THEN {"C07"} ELSE {})
-                             \cup (IF ~Cfg.fault /\ ~AllDelivered THEN {"C02"} ELSE {})
+                             \cup (IF ~Cfg.fault /\ ~AllDelivered THEN {"C02", "C06"} ELSE {})
                         /\ UNCHANGED <<wr, rc, seen, gap, nr, nl, cl, dead, added, live, ec, stop, stopret, grace>>
        [] e.e = "EC" -> /\ ec' = TRUE
                         /\ viol' = viol \cup (IF ~Cfg.v1 /\ ~oc THEN {"C07"} ELSE {})
@@ -126,14 +126,16 @@ Step ==
        [] e.e = "Grace" -> grace' = TRUE /\ UNCHANGED <<wr, rc, seen, gap, nr, nl, cl, dead, added, live, oc, ec, stop, stopret, viol>>
        [] e.e = "GraceRet" -> \* GracefulStop returns only when everything registered is closed, emptied, delivered and released
                         /\ viol' = viol \cup Also17(IF ~stop /\ ~Cfg.fault /\ (~AllClosed \/ ~AllDelivered \/ InFlight # 0) THEN {"C07"} ELSE {})
-                                        \cup (IF ~stop /\ ~Cfg.fault /\ ~AllDelivered THEN {"C02"} ELSE {})
+                                        \* ... and what was written to a registered input and is still undelivered now never will be (C06)
+                                        \cup (IF ~stop /\ ~Cfg.fault /\ ~AllDelivered THEN {"C02", "C06"} ELSE {})
                                         \* simplified disciplines: termination, however reached, implies that every Handle call has returned
                                         \cup (IF Cfg.unordered /\ InFlight # 0 THEN (IF stop THEN {"C07", "C16"} ELSE {"C07"}) ELSE {})
                                         \* elements of a channel handed over by an AddInput that returned must be delivered as well
                                         \cup (IF ~stop /\ ~Cfg.fault /\ (\E c \in live \cap added : rc[c] # wr[c] \/ gap[c]) THEN {"C17"} ELSE {})
                         /\ Keep
        [] e.e \in {"StopHang", "CancelHang", "StopRetEarly"} -> viol' = viol \cup {"C16"} /\ Keep
-       [] e.e = "GraceHang" -> viol' = viol \cup Also17({"C07"}) /\ Keep
+       \* everything closed and released, yet no termination: if something written is still undelivered it is C06's business as well
+       [] e.e = "GraceHang" -> viol' = viol \cup Also17({"C07"} \cup (IF ~AllDelivered THEN {"C06"} ELSE {})) /\ Keep
        [] e.e = "OutGrew" -> viol' = viol \cup {"C16"} /\ Keep
        [] e.e = "HandleAfterStop" -> viol' = viol \cup {"C16"} /\ Keep
        [] e.e = "AddRet" -> live' = live \cup {e.c} /\ added' = added \cup {e.c} /\ UNCHANGED <<wr, rc, seen, gap, nr, nl, cl, dead, oc, ec, stop, stopret, grace, viol>>
